@@ -71,6 +71,8 @@ CHOICE_FUNCS = ['dfa_algorithms.dfa_minimize', 'dfa_algorithms.dfa_from_table', 
 
 
 def check_C01(ctx, rep):
+    small_models2.check_nfa_acceptance(ctx, rep, ctx.prog.func('nfa_algorithms.nfa_accepts_word'), ctx.prog.func('nfa_algorithms.epsilon_closure'))
+    rep.clauses_decided.append('nfa_accepts_word answers as the definition on 13 model NFAs (epsilon cycles of length 3 with an exit, partial relations, an empty target set, no final state, nondeterminism, a second epsilon symbol) and all words up to length 4, epsilon_closure of every state and of a pair is the set reachable by epsilon moves, under two iteration orders of sets; operand untouched (M19, finite model)')
     rep.clauses_decided += ['epsilon_closure is a saturation that drops nothing and stops only on an empty worklist (R-WORK W1/W2/W4)',
                             'reads of a partial NFA transition map are guarded (R-EFFECT c)',
                             'acceptance routines do not mutate their operands (R-EFFECT a)',
@@ -128,6 +130,8 @@ def check_C02(ctx, rep):
 
 
 def check_C03(ctx, rep):
+    small_models2.check_subset_construction(ctx, rep, ctx.prog.func('nfa_algorithms.nfa_to_dfa'))
+    rep.clauses_decided.append('nfa_to_dfa returns a valid total DFA over the same alphabet with the same words up to length 4 and only reachable states on 13 model NFAs under two iteration orders of sets; operand untouched (M20, finite model)')
     rep.clauses_decided += ['every subset is epsilon-closed before it is named, tested against F or enqueued (R-CLOSED iii)', 'subset worklist enqueues exactly the unseen subsets (R-WORK W1/W2)', 'operand NFA not mutated, no shared mutable state (R-EFFECT)']
     rep.not_decided += ['language equivalence for all words']
     _worklists_in(ctx, rep, ['nfa_algorithms.nfa_to_dfa', 'nfa_algorithms.epsilon_closure'])
@@ -575,6 +579,8 @@ def check_C17(ctx, rep):
 
 
 def check_C14(ctx, rep):
+    small_models2.check_dfa_constructions(ctx, rep, {op0: ctx.prog.func('dfa_algorithms.dfa_' + op0) for op0 in ('complement', 'union', 'intersection', 'symmetric_difference', 'reverse', 'no_prefix', 'no_extend')})
+    rep.clauses_decided.append('complement, the three products, reversal, the prefix-free and the non-extendable restriction return valid automata with exactly the words up to length 4 of the set operation on model DFAs (a finite language with extensions, a final initial state, the empty language); operands untouched (M21, finite model)')
     small_models2.check_remove_unreachable(ctx, rep, ctx.prog.func('dfa_algorithms.dfa_remove_unreachable_states'))
     rep.clauses_decided.append('dfa_remove_unreachable_states keeps exactly the reachable states, the reachable final states (the initial state included) and their transitions on four model DFAs (M12, finite model)')
     rep.clauses_decided += ['accepting sets are OR/AND/XOR, Q-F, F&reach (M1)', 'edge transformers equal the specification table (M2)',
